@@ -1014,7 +1014,14 @@ def remap_by_types(
             numbers = (bool, int, float)
             text = (str, bytes)
             result: Any = Any
-            if t_left in numbers and t_right in numbers:
+            if (
+                t_left is bool
+                and t_right is bool
+                and isinstance(node.op, (ast.BitAnd, ast.BitOr, ast.BitXor))
+            ):
+                # `(a > 1) & (b < 2)`: python keeps two truth values a truth value here
+                result = bool
+            elif t_left in numbers and t_right in numbers:
                 is_float = float in (t_left, t_right) or isinstance(node.op, ast.Div)
                 result = float if is_float else int
             elif {t_left, t_right} <= {complex, *numbers}:
